@@ -103,6 +103,9 @@ def replay(d):
                 cp.add_section(sec)
             cp.set(sec, key, text)
         for name in input_names:
+            if wit.get('defaults', {}).get(name):
+                cp.set('DEFAULT', name.split('.')[1], str(_h('inval', 'DEFAULT.' + name.split('.')[1])))
+        for name in input_names:
             if name in (preset or {}):
                 continue
             if wit['present'].get(name):
